@@ -1,0 +1,20 @@
+//go:build verif
+
+package downloader
+
+// Contracts checked by /verif (govc). Comment-only file: it adds no code.
+
+// ---- C17: with verification required, a download succeeds only if the downloaded archive verifies
+// against the configured keyring
+
+//@ ghost func chartVerifiedBy(path string, keyringfile string) bool = exists s *provenance.Signatory :: s != nil && box(s.KeyRing) == ringOfFile(keyringfile) && signedOK(s, path + ".prov") && listedSum(path + ".prov", path)
+
+//@ func VerifyChart
+//@   props C17
+//@   ensures [verifies-with-the-given-keyring] err == nil ==> chartVerifiedBy(path, keyring)
+
+//@ func (*ChartDownloader).DownloadTo
+//@   props C17
+//@   requires c != nil
+//@   ensures [verification-required-means-verified] old(c.Verify) == VerifyAlways && result2 == nil ==> chartVerifiedBy(result0, old(c.Keyring))
+//@   ensures [verify-if-possible-rejects-a-bad-signature] old(c.Verify) == VerifyIfPossible && result2 == nil ==> chartVerifiedBy(result0, old(c.Keyring)) || result1 != nil
